@@ -168,4 +168,215 @@ Proof.
   rewrite rebuild_mod by lia. destruct (k <? len) eqn:E; [reflexivity | apply Z.ltb_ge in E; lia].
 Qed.
 
+(* the accumulated value as a sum over the taps *)
+Theorem code_coeff_tap_sum_l start len t :
+  0 <= start -> 0 <= len ->
+  code_coeff start len t = Some (msum (fun j => phi (X ((start + j) mod D)) (t j)) (range 0 len)).
+Proof.
+  intros Hs Hl. unfold code_coeff.
+  destruct (walk_correct_l D start len HD Hs Hl) as (l & Hw & Hmap & Hall).
+  rewrite Hw. f_equal. apply (combine_sum l (range 0 len) (fun j => (start + j) mod D) t Hmap Hall).
+Qed.
+
+(* real banks never leave the first direct segment *)
+Theorem real_code_coeff_l start len t :
+  0 <= start -> 0 <= len -> start + len <= D / 2 + 1 ->
+  code_coeff start len t = Some (msum (fun j => phi (X (start + j)) (t j)) (range 0 len)).
+Proof.
+  intros Hs Hl Hfit. rewrite code_coeff_tap_sum_l by assumption. f_equal.
+  apply msum_ext. intros j Hj. apply in_range in Hj. f_equal. f_equal.
+  apply Z.mod_small. assert (D / 2 + 1 <= D \/ D = 1) as [H|H] by (pose proof (Z.div_mod D 2 ltac:(lia)); pose proof (Z.mod_pos_bound D 2 ltac:(lia)); lia).
+  - lia.
+  - subst D. change (1 / 2) with 0 in Hfit. lia.
+Qed.
+
+(* ---- real banks: twice the half-spectrum sum ---- *)
+Hypothesis phi_conj : forall x t, phi (cconj x) (cconj t) = phi x t.
+
+Lemma msum_snoc f l k : msum f (l ++ [k]) = mplus (msum f l) (f k).
+Proof. rewrite msum_app. cbn [msum fold_right]. rewrite mplus_0_r. reflexivity. Qed.
+
+Lemma msum_rev_list f l : msum f (rev l) = msum f l.
+Proof.
+  induction l as [|x l IH]; [reflexivity|].
+  cbn [rev]. rewrite msum_snoc, IH. cbn [msum fold_right]. apply mplus_comm.
+Qed.
+
+Lemma range_nat_succ_shift (m : nat) : forall b, range_nat (b + 1) m = map (fun j => j + 1) (range_nat b m).
+Proof. induction m as [|m IHm]; intros b; cbn [range_nat map]; [reflexivity|]. f_equal. apply IHm. Qed.
+
+Lemma rev_range_nat (n : nat) : forall a,
+  rev (range_nat a n) = map (fun i => 2 * a + Z.of_nat n - 1 - i) (range_nat a n).
+Proof.
+  induction n as [|n IH]; intros a; [reflexivity|].
+  replace (Datatypes.S n) with (n + 1)%nat at 1 by lia.
+  rewrite range_nat_app. cbn [range_nat]. rewrite rev_app_distr. cbn [rev app].
+  rewrite IH. cbn [map]. f_equal; [lia|].
+  rewrite range_nat_succ_shift, map_map. apply map_ext. intros j. lia.
+Qed.
+
+Lemma msum_rev_nat f (n : nat) : forall a,
+  msum f (range_nat a n) = msum (fun i => f (2 * a + Z.of_nat n - 1 - i)) (range_nat a n).
+Proof.
+  intros a. rewrite <- (msum_rev_list f (range_nat a n)). rewrite rev_range_nat, msum_map. reflexivity.
+Qed.
+
+Lemma msum_rev f a b : a <= b ->
+  msum f (range a b) = msum (fun i => f (a + b - 1 - i)) (range a b).
+Proof.
+  intros H. unfold range. rewrite msum_rev_nat. apply msum_ext. intros k _. f_equal. lia.
+Qed.
+
+(* the documented recipe for real banks (get_truncated_response docstring):
+     full[start : start+len] = trnc
+     full[D - start - len + 1 : D - start + 1] = trnc[:None if start else 0:-1].conj()   (assigned last) *)
+Definition rebuild_real (start len : Z) (t : Z -> C) (k : Z) : C :=
+  let m0 := if start =? 0 then 1 else 0 in
+  let m := D - start - k in
+  if (m0 <=? m) && (m <? len) then cconj (t m)
+  else if (start <=? k) && (k <? start + len) then t (k - start)
+  else czero.
+
+Lemma taps_to_bins start len t :
+  msum (fun j => phi (X (start + j)) (t j)) (range 0 len) =
+  msum (fun k => phi (X k) (t (k - start))) (range start (len + start)).
+Proof.
+  replace (range start (len + start)) with (range (0 + start) (len + start)) by (f_equal; lia).
+  rewrite <- (msum_shift (fun k => phi (X k) (t (k - start))) 0 len start).
+  apply msum_ext. intros j _. f_equal; f_equal; lia.
+Qed.
+
+Theorem real_coeff_is_twice_half_l start len t :
+  0 <= start -> 0 <= len -> start + len <= D / 2 + 1 ->
+  (* the DC and Nyquist taps contribute nothing (true of triangular / Fbank filters,
+     whose response vanishes at 0 Hz and at the Nyquist frequency) *)
+  (start = 0 -> 0 < len -> forall x, phi x (t 0) = mzero) ->
+  (D mod 2 = 0 -> start <= D / 2 < start + len -> forall x, phi x (t (D / 2 - start)) = mzero) ->
+  let S := msum (fun j => phi (X (start + j)) (t j)) (range 0 len) in
+  mplus S S = msum (fun k => phi (X k) (rebuild_real start len t k)) (range 0 D).
+Proof.
+  intros Hs Hl Hfit Hdc Hny S.
+  destruct (Z.eq_dec len 0) as [Hlen0|Hlen0].
+  { subst len. unfold S. rewrite range_empty by lia. cbn [msum fold_right]. rewrite mplus_0_l.
+    symmetry. apply msum_zero. intros k Hk. unfold rebuild_real. cbv zeta.
+    destruct (((if start =? 0 then 1 else 0) <=? D - start - k) && (D - start - k <? 0)) eqn:E1.
+    { apply andb_true_iff in E1. destruct E1 as [A B]. apply Z.leb_le in A. apply Z.ltb_lt in B.
+      destruct (start =? 0); lia. }
+    destruct ((start <=? k) && (k <? start + 0)) eqn:E2.
+    { apply andb_true_iff in E2. destruct E2 as [A B]. apply Z.leb_le in A. apply Z.ltb_lt in B. lia. }
+    apply phi_zero. }
+  assert (0 < len) as Hlpos by lia.
+  set (c := D - D / 2).
+  assert (D / 2 <= c <= D / 2 + 1) as Hc by (unfold c; lia).
+  assert (0 <= D / 2) as Hh by (apply Z.div_pos; lia).
+  rewrite (range_split 0 c D) by (unfold c; lia). rewrite msum_app. f_equal.
+  - (* lower part: bins 0 .. c-1 carry the taps themselves *)
+    transitivity (msum (fun k => if (start <=? k) && (k <? start + len) then phi (X k) (t (k - start)) else mzero) (range 0 c)).
+    + (* S, shifted to bin coordinates *)
+      unfold S. rewrite taps_to_bins.
+      destruct (Z_le_gt_dec (start + len) c) as [Hin|Hout].
+      * (* all taps below c *)
+        destruct (Z_le_gt_dec start c) as [Hsc|Hsc].
+        -- rewrite (range_split 0 start c) by lia. rewrite msum_app.
+           rewrite (msum_zero _ (range 0 start)).
+           2:{ intros k Hk. apply in_range in Hk. destruct (start <=? k) eqn:E; [apply Z.leb_le in E; lia | reflexivity]. }
+           rewrite mplus_0_l.
+           rewrite (range_split start (len + start) c) by lia. rewrite msum_app.
+           rewrite (msum_zero _ (range (len + start) c)).
+           2:{ intros k Hk. apply in_range in Hk. destruct (k <? start + len) eqn:E; [apply Z.ltb_lt in E; lia | rewrite andb_false_r; reflexivity]. }
+           rewrite mplus_0_r. apply msum_ext. intros k Hk. apply in_range in Hk.
+           destruct (start <=? k) eqn:E1; [|apply Z.leb_gt in E1; lia].
+           destruct (k <? start + len) eqn:E2; [reflexivity | apply Z.ltb_ge in E2; lia].
+        -- assert (len = 0) by lia. subst len. rewrite range_empty by lia. cbn [msum fold_right].
+           symmetry. apply msum_zero. intros k Hk. apply in_range in Hk.
+           destruct (start <=? k) eqn:E; [apply Z.leb_le in E; lia | reflexivity].
+      * (* the last tap sits on the Nyquist bin D/2 = c (D even) and contributes nothing *)
+        assert (D mod 2 = 0 /\ start + len = D / 2 + 1 /\ c = D / 2) as (Hev & Hlen & Hcc).
+        { unfold c in *. pose proof (Z.div_mod D 2 ltac:(lia)). pose proof (Z.mod_pos_bound D 2 ltac:(lia)). lia. }
+        rewrite (range_split start c (len + start)) by lia. rewrite msum_app.
+        replace (len + start) with (c + 1) by lia. rewrite (range_cons c) by lia. rewrite (range_empty (c + 1)) by lia.
+        cbn [msum fold_right]. rewrite mplus_0_r.
+        replace (c - start) with (D / 2 - start) by lia. rewrite Hny by lia. rewrite mplus_0_r.
+        rewrite (range_split 0 start c) by lia. rewrite msum_app.
+        rewrite (msum_zero _ (range 0 start)).
+        2:{ intros k Hk. apply in_range in Hk. destruct (start <=? k) eqn:E; [apply Z.leb_le in E; lia | reflexivity]. }
+        rewrite mplus_0_l. apply msum_ext. intros k Hk. apply in_range in Hk.
+        destruct (start <=? k) eqn:E1; [|apply Z.leb_gt in E1; lia].
+        destruct (k <? start + len) eqn:E2; [reflexivity | apply Z.ltb_ge in E2; lia].
+    + apply msum_ext. intros k Hk. apply in_range in Hk. unfold rebuild_real. cbv zeta.
+      destruct ((if start =? 0 then 1 else 0) <=? D - start - k) eqn:E1;
+        destruct (D - start - k <? len) eqn:E2; cbn [andb].
+      * apply Z.ltb_lt in E2. unfold c in *. lia.
+      * destruct ((start <=? k) && (k <? start + len)); [reflexivity | symmetry; apply phi_zero].
+      * destruct ((start <=? k) && (k <? start + len)); [reflexivity | symmetry; apply phi_zero].
+      * destruct ((start <=? k) && (k <? start + len)); [reflexivity | symmetry; apply phi_zero].
+  - (* upper part: bins c .. D-1 carry the conjugated taps, mirrored *)
+    rewrite (msum_rev _ c D) by (unfold c; lia).
+    (* bin c + D - 1 - i =: D - h with h = i - c + 1 in [1, D - c] *)
+    transitivity (msum (fun h => if (start <=? h) && (h <? start + len) then phi (X h) (t (h - start)) else mzero) (range 1 (D - c + 1))).
+    + unfold S. rewrite taps_to_bins.
+      assert (D - c = D / 2) as Hdc2 by (unfold c; lia). rewrite Hdc2.
+      destruct (Z.eq_dec start 0) as [->|Hs0].
+      * (* the DC tap contributes nothing *)
+        rewrite (range_cons 0) by lia. cbn [msum fold_right].
+        replace (0 - 0) with 0 by lia. rewrite (Hdc eq_refl ltac:(lia)). rewrite mplus_0_l.
+        fold (msum (fun k => phi (X k) (t (k - 0))) (range (0 + 1) (len + 0))).
+        replace (0 + 1) with 1 by lia. replace (len + 0) with len by lia.
+        rewrite (range_split 1 len (D / 2 + 1)) by lia. rewrite msum_app.
+        rewrite (msum_zero _ (range len (D / 2 + 1))).
+        2:{ intros k Hk. apply in_range in Hk. destruct (k <? 0 + len) eqn:E; [apply Z.ltb_lt in E; lia | rewrite andb_false_r; reflexivity]. }
+        rewrite mplus_0_r. apply msum_ext. intros k Hk. apply in_range in Hk.
+        destruct (0 <=? k) eqn:E1; [|apply Z.leb_gt in E1; lia].
+        destruct (k <? 0 + len) eqn:E2; [reflexivity | apply Z.ltb_ge in E2; lia].
+      * rewrite (range_split 1 start (D / 2 + 1)) by lia. rewrite msum_app.
+        rewrite (msum_zero _ (range 1 start)).
+        2:{ intros k Hk. apply in_range in Hk. destruct (start <=? k) eqn:E; [apply Z.leb_le in E; lia | reflexivity]. }
+        rewrite mplus_0_l.
+        rewrite (range_split start (len + start) (D / 2 + 1)) by lia. rewrite msum_app.
+        rewrite (msum_zero _ (range (len + start) (D / 2 + 1))).
+        2:{ intros k Hk. apply in_range in Hk. destruct (k <? start + len) eqn:E; [apply Z.ltb_lt in E; lia | rewrite andb_false_r; reflexivity]. }
+        rewrite mplus_0_r. apply msum_ext. intros k Hk. apply in_range in Hk.
+        destruct (start <=? k) eqn:E1; [|apply Z.leb_gt in E1; lia].
+        destruct (k <? start + len) eqn:E2; [reflexivity | apply Z.ltb_ge in E2; lia].
+    + (* re-index h = i - c + 1 *)
+      replace (range 1 (D - c + 1)) with (range (c + (1 - c)) (D + (1 - c))) by (f_equal; lia).
+      rewrite <- (msum_shift (fun h => if (start <=? h) && (h <? start + len) then phi (X h) (t (h - start)) else mzero) c D (1 - c)).
+      apply msum_ext. intros i Hi. apply in_range in Hi. cbv beta.
+      set (h := i + (1 - c)).
+      replace (c + D - 1 - i) with (D - h) by (unfold h; lia).
+      assert (1 <= h <= D - c) as Hhr by (unfold h; lia).
+      unfold rebuild_real. cbv zeta. replace (D - start - (D - h)) with (h - start) by lia.
+      destruct (start =? 0) eqn:Es0.
+      * apply Z.eqb_eq in Es0. subst start.
+        replace (h - 0) with h by lia.
+        destruct (1 <=? h) eqn:E1; [|apply Z.leb_gt in E1; lia].
+        destruct (0 <=? h) eqn:E0; [|apply Z.leb_gt in E0; lia].
+        replace (0 + len) with len by lia.
+        destruct (h <? len) eqn:E2; cbn [andb].
+        -- rewrite Hermitian by (unfold c in *; lia). rewrite phi_conj. reflexivity.
+        -- destruct ((0 <=? D - h) && (D - h <? len)) eqn:E3; [|symmetry; apply phi_zero].
+           apply andb_true_iff in E3. destruct E3 as [_ E3]. apply Z.ltb_lt in E3. apply Z.ltb_ge in E2.
+           unfold c in *. lia.
+      * apply Z.eqb_neq in Es0.
+        destruct (0 <=? h - start) eqn:E1; destruct (h - start <? len) eqn:E2; cbn [andb].
+        -- apply Z.leb_le in E1. apply Z.ltb_lt in E2.
+           destruct (start <=? h) eqn:E3; [|apply Z.leb_gt in E3; lia].
+           destruct (h <? start + len) eqn:E4; [|apply Z.ltb_ge in E4; lia]. cbn [andb].
+           rewrite Hermitian by (unfold c in *; lia). rewrite phi_conj. reflexivity.
+        -- apply Z.ltb_ge in E2.
+           destruct (h <? start + len) eqn:E4; [apply Z.ltb_lt in E4; lia|]. rewrite andb_false_r.
+           destruct ((start <=? D - h) && (D - h <? start + len)) eqn:E3; [|symmetry; apply phi_zero].
+           apply andb_true_iff in E3. destruct E3 as [_ E3]. apply Z.ltb_lt in E3. unfold c in *. lia.
+        -- apply Z.leb_gt in E1.
+           destruct (start <=? h) eqn:E3; [apply Z.leb_le in E3; lia|]. cbn [andb].
+           destruct ((start <=? D - h) && (D - h <? start + len)) eqn:E4; [|symmetry; apply phi_zero].
+           apply andb_true_iff in E4. destruct E4 as [E4 E5]. apply Z.leb_le in E4. apply Z.ltb_lt in E5.
+           unfold c in *. lia.
+        -- apply Z.leb_gt in E1.
+           destruct (start <=? h) eqn:E3; [apply Z.leb_le in E3; lia|]. cbn [andb].
+           destruct ((start <=? D - h) && (D - h <? start + len)) eqn:E4; [|symmetry; apply phi_zero].
+           apply andb_true_iff in E4. destruct E4 as [E4 E5]. apply Z.leb_le in E4. apply Z.ltb_lt in E5.
+           unfold c in *. lia.
+Qed.
+
 End Spectrum.
